@@ -651,3 +651,17 @@ _add("C14", "ADDED: Reset INSIDE the XFLATE models (XFlate/WriterReset.v, Reader
      "chunk's offsets after a failed open: proved, and unobservable). Model limitation found here: on a DAMAGED chunk the real "
      "Reader latches Corrupted in the Read that returns the last bytes, the Reader model one Read later; Writer-made streams never "
      "do this; such histories are compared up to that Read and counted.")
+
+_LATCH = ("ADDED: the xflate.Reader model was REPAIRED for damaged chunks (the chunk decompressor hands the last bytes over together "
+          "with its error or io.EOF; the real Reader acts on that status in the same Read, the old model one Read later - found by "
+          "the Reset work, invisible to runs that read to the end). All theorems re-established; WXRLATCH drives 17 kinds of "
+          "hand-made damaged chunks under consistent indexes live against the model, per call (Read / Seek / Close results, cursor "
+          "fields). ")
+_add("C09", _LATCH + "The failure contract of xflate.Reader on such input - error latched in the call that delivers the last bytes, Seek "
+     "and Close report it - is now part of the per-call correspondence.")
+_add("C15", _LATCH + "Acceptance of hostile streams is compared with the repaired model.")
+_add("C17", _LATCH + "One statement was false for the code and was corrected: read locality is strict except that a Read ending exactly "
+     "at the end of a chunk whose io.EOF arrives with its last bytes also steps to the next record (a Seek, no fetch; witness "
+     "Latch.eof_with_the_last_bytes_moves_on).")
+_add("C07", _LATCH + "The table-level refinement lemma needs 'the last record has no raw data' (true of every table open_reader builds: "
+     "append_record_zero_last); xflate_reader_refines_readseeker is unchanged.")
